@@ -13,6 +13,7 @@ pub fn run(check: &mut Check) {
     if check.is_replay() {
         vcommon::harness_error("C07 builds batches of worlds; re-run ./check C07 quick to reproduce (worlds are a function of VERIF_SEED)");
     }
+    vcommon::abort::install(&check.id, "worlds", check.sub_seed("worlds", 0));
     let nworlds = std::env::var("VERIF_N").ok().and_then(|s| s.parse().ok()).unwrap_or(check.tier.pick(42usize, 700));
     let vars: Vec<(&str, Vec<&str>)> = vec![("default", vec![]), ("no-std", vec!["--std-feature"]), ("merge-equal", vec!["--merge-structurally-equal-types"])];
     let worlds: Vec<ProxyWorld> = check.draw("worlds", &exec::resource_world_strategy(), nworlds);
